@@ -2,7 +2,7 @@
 """Regenerates /verif/MANIFEST.json from the list of properties the checker registers (bin/dmverif -list)
 and the per-property texts in scripts/manifest_texts.json. Properties without a registered check go to not_applicable."""
 POOL_TEXT = (' In addition, restricted to the functions reachable from this property\'s entry points (call graph with class-hierarchy '
-             'resolution of the repository\'s interfaces): the pooled function-scoped clauses found for neighbouring properties, the generic '
+             'resolution of the repository\'s interfaces): the pooled function-scoped clauses found for neighbouring properties and, through the cross pool, every other property\'s own function-scoped clauses, the generic '
              'error / received-error / presence-test / accumulator disciplines, effect dominance (no success path loses a store or file-system '
              'operation every success path of the reviewed tree passed). A comparison of the guarded actions of the core functions with a reviewed '
              'table is computed too but is advisory only (evidence notes): it is not robust to equivalent restructurings and raises no violation.')
